@@ -149,7 +149,7 @@ class Src:
                 continue
             p = it.parent
             if impl is not None:
-                if p is None or p.kind not in ("impl", "trait"):
+                if p is None or p.kind != "impl":
                     continue
                 if not impl_matches(p.header, impl):
                     continue
@@ -417,14 +417,14 @@ def rewrite_generics(rw, src, lt, gt, cfg, rule="R4-generics"):
         if name in cfg.drop_generics:
             continue
         keep.append((a, b))
-    if len(keep) == len(parts):
-        return
     if not keep:
         rw.replace(lt, gt + 1, "", rule)
     else:
-        # delete dropped params individually (keep text of the others verbatim)
+        # delete dropped params individually (keep text of the others verbatim, type substitution applied)
         kept = ", ".join(src.text[src.toks[a].start:src.toks[b - 1].end] for a, b in keep)
-        rw.replace(lt, gt + 1, "<" + _subst_text(src, kept, cfg) + ">", rule)
+        new = "<" + _subst_text(src, kept, cfg) + ">"
+        if new != src.text[src.toks[lt].start:src.toks[gt].end]:
+            rw.replace(lt, gt + 1, new, rule)
 
 
 def _subst_text(src, text, cfg):
@@ -475,6 +475,8 @@ def rewrite_where(rw, src, w0, w1, cfg, rule="R1-where"):
             sub_end += 1
         subj = src.tstr(a, sub_end)
         if any(norm(subj) == d or norm(subj).startswith(d + "::") for d in cfg.drop_where):
+            continue
+        if norm(src.tstr(a, b)) in getattr(cfg, "drop_pred", ()):
             continue
         keep.append((a, b))
     if len(keep) == len(parts):
